@@ -494,3 +494,24 @@ def node_at(r, path):
     for p in path:
         r = [c for c in r["children"] if c["name"] == p][0]
     return r
+
+
+# ------------------------------------------------------------------ listing order (C09)
+
+def permute_lists(r, rng, child_perm=None):
+    """The same routine with every list-valued field listed in another order (recursively)."""
+    n = dict(r)
+    kids = [permute_lists(c, rng) for c in r["children"]]
+    if child_perm is not None:
+        kids = [kids[i] for i in child_perm]
+    else:
+        rng.shuffle(kids)
+    n["children"] = kids
+    for f in ("ports", "resources", "connections", "input_params", "local_variables"):
+        l = list(r[f])
+        rng.shuffle(l)
+        n[f] = l
+    links = [[s, rng.sample(ts, len(ts))] for s, ts in r["linked_params"]]
+    rng.shuffle(links)
+    n["linked_params"] = links
+    return n
